@@ -17,7 +17,8 @@
    HttpServerMC.                                                              *)
 EXTENDS Naturals, Sequences
 
-VARIABLES cfg,      \* [mode |-> "now" | "later"]  how the deterministic resource answers
+VARIABLES cfg,      \* [mode |-> "now" | "later" | "end"]  when the deterministic resource answers: inside process(),
+                    \*   right after every delivery call, or only after the last delivery (then one comparison, at the end)
           ncmp,     \* comparisons made
           closedAt, \* 0, or the stream position at which a split run was seen closed
           last
